@@ -71,6 +71,27 @@ pub struct LayoutObs {
     pub first_hints: Vec<u64>,
     pub call_value: Option<u64>,
     pub clipped: bool,
+    /// protection ("rwx" letters) of the page(s) holding the target's first 16 bytes before the
+    /// installation and right after it
+    #[serde(default)]
+    pub prot_pre: Vec<String>,
+    #[serde(default)]
+    pub prot_during: Vec<String>,
+}
+
+fn prot_of(addr: usize) -> Vec<String> {
+    let m = crate::maps::maps();
+    let mut pages = vec![addr & !0xFFF];
+    if (addr + 15) & !0xFFF != pages[0] {
+        pages.push((addr + 15) & !0xFFF);
+    }
+    pages
+        .iter()
+        .map(|p| match m.iter().find(|x| (*p as u64) >= x.lo && (*p as u64) < x.hi) {
+            Some(x) => format!("{}{}{}", if x.r { 'r' } else { '-' }, if x.w { 'w' } else { '-' }, if x.x { 'x' } else { '-' }),
+            None => "unmapped".to_string(),
+        })
+        .collect()
 }
 
 fn account(evs: &[ip::Ev], live: &mut BTreeMap<u64, u64>, anomalies: &mut Vec<String>, granted: &mut u64, unmaps: &mut u64) {
@@ -174,6 +195,7 @@ pub fn execute(c: &LayoutCase) -> LayoutObs {
         }
     }
     o.pre = crate::mem::read_direct(addr, 32);
+    o.prot_pre = prot_of(addr);
     crate::worker::phase("install");
     let r = std::panic::catch_unwind(std::panic::AssertUnwindSafe(|| {
         ip::sut(|| {
@@ -189,6 +211,7 @@ pub fn execute(c: &LayoutCase) -> LayoutObs {
     ip::MODE.store(ip::MODE_PASS, SeqCst);
     o.mmap_calls = ip::MMAP_CALLS.load(SeqCst);
     o.during = crate::mem::read_direct(addr, 32);
+    o.prot_during = prot_of(addr);
     let evs = ip::log_take();
     o.first_hints = evs.iter().filter(|e| e.kind == ip::Kind::Mmap).take(3).map(|e| e.a0).collect();
     let mut live = BTreeMap::new();
@@ -312,6 +335,9 @@ pub fn judge(rec: &mut Recorder, c: &LayoutCase, ex: Exec, _hello: &Value) -> Re
         rec.count("refused", 1);
         if o.during != o.pre {
             return rec.fail(&sig("refused-but-target-modified"), format!("installation panicked ({:?}) but the target changed; case {c:?}", o.panic));
+        }
+        if o.prot_during != o.prot_pre && !o.prot_pre.is_empty() {
+            return rec.fail(&sig("refused-but-target-protection-changed"), format!("installation panicked ({:?}) with the target's bytes unchanged, but the protection of the page(s) holding its entry went from {:?} to {:?}: the refused function was not left untouched (its code is now writable); case {c:?}", o.panic, o.prot_pre, o.prot_during));
         }
         if !o.outstanding_after_install.is_empty() {
             return rec.fail(&sig("rejected-placement-left-mapped"), format!("installation panicked ({:?}) and left {} mapping(s) behind: {:x?} ({} obtained, {} given back); case {c:?}", o.panic, o.outstanding_after_install.len(), o.outstanding_after_install, o.mmap_granted, o.munmaps));
